@@ -80,9 +80,20 @@ type sProc struct {
 	tornDown int
 	openFail bool
 	stamps   map[int]int // record index -> version that processed it
+	// a slow Open: entered is closed when Open starts, Open returns once gate is closed
+	openEntered chan struct{}
+	openGate    chan struct{}
 }
 
-func (p *sProc) Open(context.Context) error {
+func (p *sProc) Open(ctx context.Context) error {
+	if p.openGate != nil {
+		close(p.openEntered)
+		select {
+		case <-p.openGate:
+		case <-ctx.Done():
+			return ctx.Err()
+		}
+	}
 	p.w.mu.Lock()
 	defer p.w.mu.Unlock()
 	if p.openFail {
@@ -160,6 +171,7 @@ type sSource struct {
 	pauseAt   int           // >0: Read blocks before handing out record pauseAt until resume is closed
 	paused    chan struct{} // closed when the source reached pauseAt
 	resume    chan struct{}
+	symOps    bool
 }
 
 func (s *sSource) ID() string           { return "src" }
@@ -206,7 +218,11 @@ func (s *sSource) Read(ctx context.Context) ([]opencdc.Record, error) {
 			close(s.served)
 		}
 		s.w.mu.Unlock()
-		return []opencdc.Record{{Position: sPos(i), Operation: opencdc.OperationCreate, Metadata: opencdc.Metadata{}, Key: opencdc.RawData("k" + strconv.Itoa(i))}}, nil
+		op := opencdc.OperationCreate
+		if s.symOps && verifBool("src.snapshot.r"+strconv.Itoa(i)) {
+			op = opencdc.OperationSnapshot
+		}
+		return []opencdc.Record{{Position: sPos(i), Operation: op, Metadata: opencdc.Metadata{}, Key: opencdc.RawData("k" + strconv.Itoa(i))}}, nil
 	}
 	s.w.mu.Unlock()
 	<-ctx.Done()
@@ -270,6 +286,8 @@ type sDest struct {
 	nacked   map[int]bool
 	pending  chan opencdc.Record
 	allowMis bool
+	ackOnly  bool
+	batchAcks bool // one Ack response confirms every record written so far
 	slow     bool // answers only once the rest of the pipeline is idle
 	opened   int
 	tornDown int
@@ -311,6 +329,9 @@ func (d *sDest) Write(ctx context.Context, recs []opencdc.Record) error {
 	for _, r := range recs {
 		i := sIdx(r.Position)
 		verifAssert(i >= 0 && i < w.K, "c05-unknown-record-written")
+		// C08: a record a processor filtered out or failed never reaches a destination
+		verifAssert(!w.filtered[i], "c08-filtered-record-delivered")
+		verifAssert(!w.procErr[i], "c08-failed-record-delivered")
 		for _, prev := range d.writes {
 			verifAssert(prev != i, "c05-record-written-twice")
 		}
@@ -327,6 +348,16 @@ func (d *sDest) Write(ctx context.Context, recs []opencdc.Record) error {
 	for _, r := range recs {
 		d.pending <- r
 	}
+	if d.batchAcks {
+		// the write is visible to the plugin before the node forwards the message
+		// to the acker: a scheduling point in between (natively: a pause wide
+		// enough for the plugin to answer in between)
+		if verifSymbolic() {
+			verifYield()
+		} else {
+			time.Sleep(20 * time.Millisecond)
+		}
+	}
 	return nil
 }
 
@@ -342,6 +373,26 @@ func (d *sDest) Ack(ctx context.Context) ([]connector.DestinationAck, error) {
 		time.Sleep(time.Millisecond)
 	}
 	w := d.w
+	if d.batchAcks {
+		// a destination that confirms everything written so far in one response
+		if !verifSymbolic() {
+			time.Sleep(5 * time.Millisecond)
+		}
+		w.mu.Lock()
+		defer w.mu.Unlock()
+		acks := []connector.DestinationAck{{Position: r.Position}}
+		d.acked[sIdx(r.Position)] = true
+		for more := true; more; {
+			select {
+			case r2 := <-d.pending:
+				acks = append(acks, connector.DestinationAck{Position: r2.Position})
+				d.acked[sIdx(r2.Position)] = true
+			default:
+				more = false
+			}
+		}
+		return acks, nil
+	}
 	w.mu.Lock()
 	defer w.mu.Unlock()
 	i := sIdx(r.Position)
@@ -355,7 +406,7 @@ func (d *sDest) Ack(ctx context.Context) ([]connector.DestinationAck, error) {
 			return []connector.DestinationAck{{Position: opencdc.Position("zz")}}, nil
 		}
 	}
-	if verifBool(d.id + ".nack") {
+	if !d.ackOnly && verifBool(d.id+".nack") {
 		d.nacked[i] = true
 		return []connector.DestinationAck{{Position: r.Position, Error: cerrors.New(d.id + " rejected p" + strconv.Itoa(i))}}, nil
 	}
@@ -434,6 +485,9 @@ type sCfg struct {
 	pauseAt        int
 	procKinds      []int // nil: no processor node
 	parallel       int   // >0: wrap the processor in a ParallelNode with this many workers
+	symOps         bool  // each record's operation is chosen (create / snapshot)
+	ackOnly        bool  // destinations acknowledge everything
+	batchAcks      bool  // destinations confirm everything written so far in one response
 }
 
 type sPipeline struct {
@@ -451,7 +505,7 @@ type sPipeline struct {
 
 func buildPipeline(c sCfg) *sPipeline {
 	w := &sWorld{K: c.K, filtered: map[int]bool{}, procErr: map[int]bool{}, dlqSize: c.dlqSize, dlqTh: c.dlqTh}
-	w.src = &sSource{w: w, stopCh: make(chan struct{}), ackFail: c.srcAckFail, stopAfter: c.stopAfter, served: make(chan struct{})}
+	w.src = &sSource{w: w, stopCh: make(chan struct{}), ackFail: c.srcAckFail, stopAfter: c.stopAfter, served: make(chan struct{}), symOps: c.symOps}
 	if c.stopAfter == 0 {
 		close(w.src.served)
 	}
@@ -494,7 +548,9 @@ func buildPipeline(c sCfg) *sPipeline {
 	for m := 0; m < c.M; m++ {
 		d := newSDest(w, "dest"+strconv.Itoa(m))
 		d.allowMis = c.badDest
-		if c.M > 1 {
+		d.ackOnly = c.ackOnly
+		d.batchAcks = c.batchAcks
+		if c.M > 1 && !c.ackOnly {
 			d.slow = verifBool(d.id + ".slow")
 		}
 		w.dests = append(w.dests, d)
